@@ -647,6 +647,7 @@ def units():
     us.append(Unit("cdist", DM + ":cdist", run_cdist, props=["C20"], timeout=300))
     us.append(Unit("Solution.field_at_position[call contract]", "tdgl.solution.solution:Solution.field_at_position", run_field_at_position, props=["C20", "C08"], timeout=300))
     us.append(Unit("biot_savart_2d[call contract]", EM + ":biot_savart_2d", run_biot_savart_wrapper, props=["C20"], timeout=300))
+    us.append(Unit("biot_savart[1-D current elements]", EM + ":_biot_savart_1d_vector, biot_savart", run_biot_savart_1d, props=["C20"], timeout=300))
     us.append(Unit("current_loop_vector_potential", EM + ":current_loop_vector_potential", run_loop_potential, props=["C20"], timeout=300))
     us.append(Unit("sources.loop", "tdgl.sources.loop:loop_vector_potential, CurrentLoop",
                    lambda m=None: __import__("checks.field_common", fromlist=["x"]).run_loop_source(m, prefixes=("C20.", "C08.")), props=["C20", "C08"], timeout=300))
@@ -715,6 +716,17 @@ def native(seed=0):
                 if not np.allclose(got, want, rtol=1e-9, atol=1e-30):
                     bad.append(dict(what="biot_savart_2d with areas=None differs from the same call with the cell areas of the triangulated positions", length_units=lu,
                                     max_rel=float(np.abs(got - want).max() / np.abs(want).max())))
+        # field of 1-D current elements (biot_savart) against the direct sum mu0/4pi I dl x r / |r|^3
+        if t < 3:
+            me = int(rng.integers(2, 9))
+            p3, d3, I3 = rng.uniform(-1, 1, size=(me, 3)), rng.normal(size=(me, 3)) * 0.1, rng.normal(size=me)
+            e3 = np.stack([x, y, z + 1.5], 1)
+            got = em.biot_savart(e3, current_positions=p3, current_vectors=d3, currents=I3).to("tesla").magnitude
+            r3 = e3[:, None, :] - p3[None, :, :]
+            ref = mu_0 / (4 * np.pi) * np.einsum("k,ikd->id", I3, np.cross(d3[None, :, :], r3) / np.linalg.norm(r3, axis=2)[:, :, None] ** 3)
+            n += 1
+            if not np.allclose(got, ref, rtol=1e-9, atol=1e-30):
+                bad.append(dict(what="biot_savart (1-D current elements) differs from the direct Biot-Savart sum", elements=me, trial=t))
         # integer lattice coordinates (pixel indices) with a real scalar height must give what the same points give as floats
         xi, yi = rng.integers(-3, 4, size=k), rng.integers(-3, 4, size=k)
         zsc = float(rng.uniform(0.3, 0.9))
@@ -908,6 +920,9 @@ def replay(unit, obl):
 
 SOL_ = "tdgl.solution.solution"
 MUTANTS = __import__("checks.field_common", fromlist=["x"]).MUTANTS_LOOP + [
+    dict(name="1-D elements: cross product with the operands swapped", units=["biot_savart[1-D current elements]"], edits=[(EM, "np.cross(I_dl, r) / dr**3", "np.cross(r, I_dl) / dr**3")]),
+    dict(name="1-D elements: inverse square of the distance", units=["biot_savart[1-D current elements]"], edits=[(EM, "np.cross(I_dl, r) / dr**3", "np.cross(I_dl, r) / dr**2")]),
+    dict(name="1-D elements: distance from the origin", units=["biot_savart[1-D current elements]"], edits=[(EM, "            r = eval_positions[i] - current_positions[k]\n            dr = np.linalg.norm(r)", "            r = eval_positions[i] - current_positions[k]\n            dr = np.linalg.norm(eval_positions[i])")]),
     dict(name="vector potential: xi not squared in the cell areas", edits=[(SOL_, "areas = device.mesh.areas * device.coherence_length.magnitude**2\n        units = units or f\"{self.field_units} * {device.length_units}\"", "areas = device.mesh.areas * device.coherence_length.magnitude\n        units = units or f\"{self.field_units} * {device.length_units}\"")], units=["Solution.vector_potential_at_position"]),
     dict(name="vector potential: film height ignored", edits=[(SOL_, "        dz = zs - layer.z0\n        # rho has units", "        dz = zs\n        # rho has units")], units=["Solution.vector_potential_at_position"]),
     dict(name="vector potential: mu0/2pi", edits=[(SOL_, "A = (ureg(\"mu_0\") / (4 * np.pi) * A).to(units)", "A = (ureg(\"mu_0\") / (2 * np.pi) * A).to(units)")], units=["Solution.vector_potential_at_position"]),
@@ -940,3 +955,87 @@ def thorough(seed=0):
         broken.append(f"native field computation disagrees: {bad[0]}")
     return dict(coverage=dict(mutants=summary, bounded=bnd, mutants_killed=sum(1 for m in summary if m["verdict"] in ("killed", "not-proved") and m["expect"] == "killed"),
                               mutants_total=sum(1 for m in summary if m["expect"] == "killed")), broken=broken)
+
+
+def run_biot_savart_1d(mutate=None):
+    """_biot_savart_1d_vector / biot_savart (field of a set of 1-D current elements; used by current_loop_field): the REAL kernel source runs with real numpy
+    on object arrays of symbolic reals for a concrete number of evaluation points (2) and current elements (3) - the loops are plain double loops, every
+    (point, element) pair is treated alike - and every coordinate, element vector and current is symbolic.  For all values: B(r_i) =
+    mu0/4pi sum_k I_k (dl_k x (r_i - r_k)) / |r_i - r_k|^3 component by component, linear in the currents, inputs not written; the public wrapper hands
+    its arguments to the kernel unchanged and labels the result tesla."""
+    import numpy as np
+    from scipy.constants import mu_0
+    from pyvc import instrument, vc as vcm
+    mut = [(o, n) for (m, o, n) in (mutate or []) if m == EM]
+
+    class _LA:
+        @staticmethod
+        def norm(r):
+            return sym.real_sqrt(SR.lift(r[0]) * SR.lift(r[0]) + SR.lift(r[1]) * SR.lift(r[1]) + SR.lift(r[2]) * SR.lift(r[2]), label="spec.sqrt")
+
+    class NPO:
+        linalg = _LA
+        pi = math.pi
+
+        def __getattr__(self, k):
+            return getattr(np, k)
+
+        @staticmethod
+        def zeros(shape, dtype=float):
+            a = np.empty(shape, dtype=object)
+            a[...] = 0
+            return a
+    numba_ = type("numba", (), {"njit": staticmethod(lambda *a, **k: (lambda f: f)), "prange": range})
+    L = instrument.load(EM, rebind={"np": NPO(), "numba": numba_}, mutate=mut, vc=vcm.VC())
+    R = z3.Real
+
+    def body():
+        c = sym.ctx()
+        c.uf_math = True
+        n, m = 2, 3
+        ev = np.empty((n, 3), dtype=object)
+        pos = np.empty((m, 3), dtype=object)
+        dl = np.empty((m, 3), dtype=object)
+        cur = np.empty((m,), dtype=object)
+        for i in range(n):
+            ev[i] = [SR(R(f"ev{i}_{a}")) for a in "xyz"]
+        for k in range(m):
+            pos[k] = [SR(R(f"pos{k}_{a}")) for a in "xyz"]
+            dl[k] = [SR(R(f"dl{k}_{a}")) for a in "xyz"]
+            cur[k] = SR(R(f"I{k}"))
+        snap = [a.copy() for a in (ev, pos, dl, cur)]
+        # no evaluation point sits on a current element
+        for i in range(n):
+            for k in range(m):
+                d2 = sum(((ev[i][a] - pos[k][a]) * (ev[i][a] - pos[k][a]) for a in range(3)), SR(0))
+                assume(d2 > 0)
+        B = L["_biot_savart_1d_vector"](ev, pos, dl, cur)
+        check("C20.biot_savart_1d.shape", z3.BoolVal(getattr(B, "shape", None) == (n, 3)))
+        check("C20.biot_savart_1d.inputs_not_written", z3.BoolVal(all(all(x is y for x, y in zip(a.ravel(), b.ravel())) for a, b in zip((ev, pos, dl, cur), snap))))
+        pref = SR(mu_0 / (4 * math.pi))
+        for i in range(n):
+            want = [SR(0), SR(0), SR(0)]
+            for k in range(m):
+                r = [ev[i][a] - pos[k][a] for a in range(3)]
+                s = sym.real_sqrt(r[0] * r[0] + r[1] * r[1] + r[2] * r[2], label="spec.sqrt")
+                idl = [cur[k] * dl[k][a] for a in range(3)]
+                cr = [idl[1] * r[2] - idl[2] * r[1], idl[2] * r[0] - idl[0] * r[2], idl[0] * r[1] - idl[1] * r[0]]
+                for a in range(3):
+                    want[a] = want[a] + pref * cr[a] / (s * s * s)
+            for a, ax in enumerate("xyz"):
+                got = SR.lift(B[i][a])
+                check(f"C20.biot_savart_1d.field_is_the_sum_over_the_elements[point {i}; {ax}]", sym.eq(got, want[a]), extra=sym.uf_axioms([got.e, want[a].e]))
+        # the public wrapper: arguments reach the kernel unchanged, result labelled tesla
+        seen = []
+        L.ns["_biot_savart_1d_vector"] = lambda *a: seen.append(a) or "KERNEL_RESULT"
+
+        class _T:
+            def __rmul__(self, o):
+                return (o, "tesla")
+        L.ns["ureg"] = lambda u: _T() if u == "tesla" else (_ for _ in ()).throw(sym.Unsupported(u))
+        out = L["biot_savart"](ev, current_positions=pos, current_vectors=dl, currents=cur)
+        check("C20.biot_savart_1d.wrapper_hands_its_arguments_to_the_kernel_and_labels_tesla",
+              z3.BoolVal(len(seen) == 1 and all(np.shape(x) == np.shape(y) and all(p is q for p, q in zip(np.asarray(x, dtype=object).ravel(), y.ravel())) for x, y in zip(seen[0], (ev, pos, dl, cur)))
+                         and out == ("KERNEL_RESULT", "tesla")))
+    obls, n_ = sym.explore(body, safety=False)
+    return dict(obls=obls, paths=n_, sources=[L.info()], consistent=sym.consistent())
